@@ -56,7 +56,7 @@ def gen_prog(rnd):
     return prog, ref
 
 
-SELECTORS = ["o-bin", "o-raw", "o-noext", "o-subdir", "make_bin", "make_raw", "make_wav", "implicit", "o+make", "make_bin-path", "o-dat", "make_raw-bin", "make_bin-img"]
+SELECTORS = ["o-bin", "o-raw", "o-noext", "o-subdir", "make_bin", "make_raw", "make_wav", "implicit", "o+make", "make_bin-path", "o-dat", "make_raw-bin", "make_bin-img", "make2", "make2b", "make3"]
 
 
 def parse_listing(text):
@@ -157,6 +157,14 @@ def run_case(case, cnt=None, root=None):
             main.stmts.append(apm.simple("make_raw", '"img.bin"')); candidates = [["img.bin.lst"]]
         elif sel == "make_wav":
             main.stmts.append(apm.simple("make_wav", '"mk.wav"')); candidates = [["mk.wav.lst", "mk.lst"]]
+        elif sel == "make2":
+            # several outputs: the listing goes with the FIRST one
+            main.stmts.append(apm.simple("make_bin", '"first.bin"')); main.stmts.append(apm.simple("make_raw", '"second.raw"')); candidates = [["first.lst"]]
+        elif sel == "make2b":
+            main.stmts.insert(0, apm.simple("make_raw", '"out/r1.raw"')); main.stmts.append(apm.simple("make_bin", '"b2.bin"')); candidates = [["out/r1.lst"]]
+        elif sel == "make3":
+            prog.files[-1].stmts.append(apm.simple("make_bin", '"aa.bin"')); prog.files[-1].stmts.append(apm.simple("make_raw", '"out/zz.raw"'))
+            prog.files[-1].stmts.append(apm.simple("make_bin", '"mm.img"')); candidates = [["aa.lst"]]
         elif sel == "implicit":
             argv_sel = ["--implicit-bin"]; candidates = [[stem + ".lst"]]
         else:
